@@ -50,6 +50,7 @@ def run(repo, rep, tier):
     _skeleton(repo, rep)
     _attributes(repo, rep)
     _whitespace(repo, rep)
+    _entry_restored(repo, rep)
     _digits(repo, rep)
 
 
@@ -405,6 +406,47 @@ def _skeleton(repo, rep):
     rep.check(not fo.f.get("orelse") or not list(A.flatten(
         fo.f.get("orelse"))), "R08.2", site, "the loop has no else branch",
         construct="no-orelse", where=wh)
+
+
+def _entry_restored(repo, rep):
+    """repeat[name] must report the *current* position also after a nested
+    loop that reuses the name: the loop variable is saved and restored by
+    the enter/leave brackets, the entry in the repeat dictionary needs the
+    same -- the emitter registers the inner loop's item under the shared key
+    and the outer item is never put back."""
+    f = repo.func(COMP + "visit_Repeat")
+    res = L.emission(repo, f.qualname)
+    lin = L.Lin(res.emission)
+    reg = lin.index(lambda it: isinstance(it, A.Frag) and bool(L.frag_find(
+        it, "(_I, _X) = getname('repeat')(_K, _I)")) or bool(
+            isinstance(it, A.Frag) and L.frag_find(
+                it, "_I, _X = getname('repeat')(_K, _I)")))
+    loops = lin.all(L.is_py("For"))
+    saved = restored = False
+    if reg >= 0 and loops:
+        for i in range(reg):
+            it = lin.item(i)
+            if isinstance(it, A.Frag) and it.tree is not None and \
+                    "getname('repeat')" in src(it.tree) and any(
+                        isinstance(n, ast.Subscript) or (
+                            isinstance(n, ast.Attribute) and n.attr == "get")
+                        for n in ast.walk(it.tree)):
+                saved = True
+        for i in range(loops[-1] + 1, len(lin.rows)):
+            it = lin.item(i)
+            if isinstance(it, A.Frag) and it.tree is not None and any(
+                    isinstance(n, ast.Assign) and isinstance(
+                        n.targets[0], ast.Subscript) and
+                    "getname('repeat')" in src(n.targets[0])
+                    for n in ast.walk(it.tree)):
+                restored = True
+    rep.check(reg >= 0 and saved and restored, "R08.2", f.qualname,
+              "the repeat dictionary's entry for the loop's key is saved "
+              "before the loop registers its own item and put back after "
+              "the loop (an enclosing loop of the same name reports its own "
+              "position again)", construct="repeat-entry-restored",
+              where=L.where(f), detail="registration found: %s, saved: %s, "
+              "restored: %s" % (reg >= 0, saved, restored))
 
 
 def _whitespace(repo, rep):
